@@ -243,7 +243,7 @@ impl FixedMethod {
 
         if let Some(character) = value.chars().next() {
             // Kar insertion
-            if character.is_kar() {
+            if character.is_kar() && value.chars().count() == 1 {
                 // Old style Kar ordering
                 if config.get_fixed_old_kar_order() {
                     // Capture left standing kar in pending_kar.
@@ -374,7 +374,7 @@ impl FixedMethod {
             }
 
             // Hasanta
-            if character == B_HASANTA && rmc == B_HASANTA {
+            if value.chars().count() == 1 && character == B_HASANTA && rmc == B_HASANTA {
                 self.buffer.push(ZWNJ);
                 return;
             }
